@@ -6,6 +6,7 @@ from . import driver
 
 VERIF = driver.VERIF
 PY = os.path.join(VERIF, '.venv', 'bin', 'python')
+if not os.path.exists(PY): PY = '/verif/.venv/bin/python'
 
 
 def harness_functions(path):
